@@ -435,7 +435,7 @@ pub fn to_ndjson(job: &EngineJob, r: &EngineRun, out: &mut Vec<String>) {
         out.push(json!({"ev": "canary", "p": h, "hits": hits}).to_string());
     }
     out.push(
-        json!({"ev": "end", "run": job.id, "steps": r.steps, "drift": r.drift, "maxout": net.max_outstanding,
+        json!({"ev": "end", "run": job.id, "steps": r.steps, "drift": r.drift, "maxout": net.max_outstanding, "maxocc": net.max_occ,
                "tmpleft": r.tmp_left, "peak": r.peak_alloc, "brecv": net.bytes_recv, "applied": r.applied,
                "taps_hit": r.taps_hit,
                "sched": r.schedule.iter().map(|(p,d,q)| json!([p, d, q])).collect::<Vec<_>>() })
